@@ -137,6 +137,13 @@ func init() {
 		return []Value{*recv}
 	})
 	// ---- *big.Rat ----
+	regPure("math/big.Rat.Float64", func(v *FnV, st *State, call *ast.CallExpr, recv *Value, args []Value) []Value {
+		// the nearest float64 (documented); "nearest" is left abstract: r2f is an uninterpreted function of the exact value
+		trust(v)
+		v.c.glob("r2f", "(declare-fun r2f (Real) F64)")
+		exact := st.freshVal("exact", tBool)
+		return []Value{{T: tFloat64, S: sx("r2f", v.bigRat(st, recv.S))}, exact}
+	})
 	regPure("math/big.Rat.Sign", func(v *FnV, st *State, call *ast.CallExpr, recv *Value, args []Value) []Value {
 		return []Value{v.goInt(tInt, sSign(v.bigRat(st, recv.S), "0.0"))}
 	})
